@@ -119,6 +119,10 @@ func targets(keys [][]byte) [][]byte {
 		out = append(out, append([]byte{}, b...))
 	}
 	for _, k := range keys {
+		if len(k) == 0 {
+			add([]byte{0}) // successor of the empty key; it has no predecessor and nil already means "no bound"
+			continue
+		}
 		add(k)
 		add(append(append([]byte{}, k...), 0)) // immediate successor
 		// a predecessor-ish value: last byte decremented (or dropped when 0)
@@ -678,7 +682,12 @@ func runSvcQuery(e *engine.EngineFacade, m drive.Model, p *drive.Program, tg [][
 	var got []kv
 	var over []drive.TxOp
 	if q.Via == "rwtx" {
-		over = q.Over
+		over = nil
+		for _, o := range q.Over {
+			if len(p.Keys[o.K]) > 0 { // the service refuses the empty key (documented key limits)
+				over = append(over, o)
+			}
+		}
 		br, err := svc.BeginTransaction(context.Background(), &pb.BeginTransactionRequest{ReadOnly: false})
 		if err != nil {
 			return &failure{"begin-error@" + ctx, err.Error()}
@@ -984,6 +993,12 @@ func genCase(t *rapid.T) Case {
 		p.Steps = append(pre, p.Steps...)
 	}
 	tg := targets(p.Keys)
+	var neKeys [][]byte // prefixes and suffixes are cut from non-empty keys
+	for _, k := range p.Keys {
+		if len(k) > 0 {
+			neKeys = append(neKeys, k)
+		}
+	}
 	nq := rapid.IntRange(20, 60).Draw(t, "nq")
 	c := Case{Program: p}
 	kinds := []string{"full", "range", "range", "seek", "seek", "seek", "last", "bounded", "prefix", "suffix", "presuf", "svc", "svc", "svc",
@@ -1076,13 +1091,13 @@ func genCase(t *rapid.T) Case {
 		case "svc":
 			// one of: prefix | suffix | prefix+suffix | range | neither
 			mode := rapid.SampledFrom([]string{"prefix", "prefix", "suffix", "both", "range", "neither"}).Draw(t, "svcmode")
-			k := p.Keys[rapid.IntRange(0, len(p.Keys)-1).Draw(t, "sfk")]
+			k := neKeys[rapid.IntRange(0, len(neKeys)-1).Draw(t, "sfk")]
 			if mode == "prefix" || mode == "both" {
 				pl := rapid.IntRange(1, min(len(k), 4)).Draw(t, "spl")
 				q.Pre = append([]byte{}, k[:pl]...)
 			}
 			if mode == "suffix" || mode == "both" {
-				k2 := p.Keys[rapid.IntRange(0, len(p.Keys)-1).Draw(t, "sfk2")]
+				k2 := neKeys[rapid.IntRange(0, len(neKeys)-1).Draw(t, "sfk2")]
 				sl := rapid.IntRange(1, min(len(k2), 2)).Draw(t, "ssl")
 				q.Suf = append([]byte{}, k2[len(k2)-sl:]...)
 			}
@@ -1096,10 +1111,10 @@ func genCase(t *rapid.T) Case {
 				q.Via = "engine"
 			}
 		case "prefix", "suffix", "presuf":
-			k := p.Keys[rapid.IntRange(0, len(p.Keys)-1).Draw(t, "fk")]
+			k := neKeys[rapid.IntRange(0, len(neKeys)-1).Draw(t, "fk")]
 			pl := rapid.IntRange(1, min(len(k), 3)).Draw(t, "pl")
 			q.Pre = append([]byte{}, k[:pl]...)
-			k2 := p.Keys[rapid.IntRange(0, len(p.Keys)-1).Draw(t, "fk2")]
+			k2 := neKeys[rapid.IntRange(0, len(neKeys)-1).Draw(t, "fk2")]
 			sl := rapid.IntRange(1, min(len(k2), 2)).Draw(t, "sl")
 			q.Suf = append([]byte{}, k2[len(k2)-sl:]...)
 			q.NextN = rapid.SampledFrom([]int{0, 0, 1, 2, 5}).Draw(t, "limit")
